@@ -279,6 +279,19 @@ fn handles_body(p: &HandleParams) {
                         }
                         stash.push(Owned { id, h: c });
                     }
+                    // "the reported reference count equals the number of live shared handles when no clone or drop is in progress"
+                    let (live0, fl0, v0, _) = ledger_state(id);
+                    let rc = public.h.refcount();
+                    let (_, _, v1, _) = ledger_state(id);
+                    if let Some(rc) = rc {
+                        if fl0 == 0 && v0 == v1 {
+                            ctx::with_ctx(|c| *c.probes.entry("harness.handles.refcount_judged").or_insert(0) += 1);
+                            if rc as i32 != live0 {
+                                ctx::report("C14", "references_count", key("references_count"), format!("references_count() == {} with {} live shared handles to value {:#x} and no clone or drop in progress (right after a clone through the public handle)", rc, live0, id));
+                                ctx::abort_run("verdict".into());
+                            }
+                        }
+                    }
                     continue;
                 }
                 if stash.is_empty() {
